@@ -295,11 +295,11 @@ pub fn run(rep: &mut Report) {
     let fams: Vec<(&str, usize, usize, bool, &[Ph])> = if quick {
         vec![("D(2,2,Phi8)", 2, 2, false, &PHI8[..]), ("D(3,1,Phi4)", 3, 1, false, &PHI4[..]), ("D(2,2,Phi6)/bfirst", 2, 2, true, &PHI6[..])]
     } else {
-        vec![("D(2,2,Phi8)", 2, 2, false, &PHI8[..]), ("D(3,2,Phi8)", 3, 2, false, &PHI8[..]), ("D(3,2,Phi6)/bfirst", 3, 2, true, &PHI6[..]), ("D(2,3,Phi6)", 2, 3, false, &PHI6[..])]
+        vec![("D(2,2,Phi8)", 2, 2, false, &PHI8[..]), ("D(3,2,Phi8)", 3, 2, false, &PHI8[..]), ("D(3,2,Phi6)/bfirst", 3, 2, true, &PHI6[..]), ("D(2,3,Phi6)", 2, 3, false, &PHI6[..]), ("D(4,0,Phi4)", 4, 0, false, &PHI4[..])]
     };
     for (name, s, b, bfirst, phis) in fams {
         let t0 = Instant::now();
-        let structs = structures_upto(s, b, bfirst);
+        let structs = if s == 4 { structures(s, b, bfirst) } else { structures_upto(s, b, bfirst) };
         let stats = sweep(&structs, |st, i, base| {
             for_phases(base, phis, |spec| {
                 watch_begin(i as u64, 0);
